@@ -266,8 +266,33 @@ def render_shape(c):
         "typedefdefault": "typedef %s TX\nstruct S { 1: optional TX f = %s, 2: required TX g = %s }\n" % (t, v, v),
         "param": "service V { void f(1: %s a, 2: optional %s b = %s) }\n" % (t, t, v),
         "return": "exception X { 1: optional %s f }\nservice V { %s f() throws (1: X x) }\n" % (t, t),
+        "optredact": "struct S { 1: optional %s f (go.redact) }\nexception X { 1: required %s f (go.redact) }\n" % (t, t),
+        "reqredact": "struct S { 1: required %s f (go.redact), 2: optional i32 n }\nunion U { 1: %s f (go.redact) }\n" % (t, t),
+        "optnolog": "struct S { 1: optional %s f (go.nolog) }\nunion U { 1: %s f (go.nolog) }\n" % (t, t),
+        "reqnolog": "struct S { 1: required %s f (go.nolog) }\n" % t,
+        "paramredact": "service V { void f(1: %s a (go.redact), 2: required %s b (go.nolog)) }\n" % (t, t),
     }[pos]
-    return PRELUDE + body
+    return prelude_for(body) + body
+
+
+PRELUDE_DEPS = {"TE": ["E"], "TP": ["P"], "TTP": ["TP"]}
+
+
+def prelude_for(body):
+    """the definitions of PRELUDE the body refers to, and what those refer to: nothing else is in the file, so that
+    whatever the body's types need (imports, helpers) is not provided by a bystander"""
+    need, todo = set(), [n for n in ("E", "P", "TE", "TP", "TI", "TS", "TL", "TM", "TB", "TTP", "TSet") if re.search(r"\b%s\b" % n, body)]
+    while todo:
+        n = todo.pop()
+        if n not in need:
+            need.add(n)
+            todo += PRELUDE_DEPS.get(n, [])
+    out = []
+    for line in PRELUDE.splitlines():
+        name = line.split()[-1] if line.startswith("typedef") else line.split()[1]
+        if name in need:
+            out.append(line)
+    return "\n".join(out) + ("\n" if out else "")
 
 
 def shape_cases(ctx):
